@@ -277,6 +277,10 @@ func randBlob(r *common.Rand, sp *spec, mt string, backed bool) ocispec.Descript
 		data = []byte("{}") // stores parse content pushed under a manifest media type
 	}
 	d := descOf(mt, data)
+	if r.Chance(1, 8) && string(data) != "{}" {
+		d = descOf512(mt, data)
+		run.Count("sha512_descriptor")
+	}
 	if backed {
 		sp.Backed[string(d.Digest)] = string(data)
 	}
@@ -345,6 +349,10 @@ func randSpec(r *common.Rand) *spec {
 			mt = randInvalidMediaType(r)
 		} else if r.Chance(1, 6) {
 			mt = ocispec.MediaTypeEmptyJSON
+		}
+		if r.Chance(1, 12) {
+			mt = "" // Pack (rc2) passes it through; PackManifest rejects it
+			run.Count("config_empty_media_type")
 		}
 		d := randBlob(r, sp, mt, backed)
 		sp.Config = &d
@@ -735,7 +743,7 @@ func floors() {
 	want := map[string]int{"result_ok": 500, "result_storage-error": 100, "result_invalid-datetime": 50, "result_invalid-media-type": 50,
 		"result_unsupported": 20, "result_missing-artifact-type": 20, "target_memory": 50, "target_oci": 50, "target_file": 50,
 		"target_registry": 50, "target_oci+exists": 50, "target_file+exists": 50, "target_registry+exists": 50, "copy_checked": 300,
-		"determinism_checked": 300, "registry_validating": 50, "file_named_blob": 50, "file_titled_config": 30, "file_titled_manifest": 10, "file_duplicate_name": 20, "enumerated_file_titles": 200, "prefilled": 300, "non_utf8_input": 50,
+		"determinism_checked": 300, "registry_validating": 50, "file_named_blob": 50, "file_titled_config": 30, "file_titled_manifest": 10, "file_duplicate_name": 20, "enumerated_file_titles": 200, "prefilled": 300, "non_utf8_input": 50, "sha512_descriptor": 50, "config_empty_media_type": 10,
 		"enumerated": 1000, "enumerated_faults": 1000, "time_accepted": 1000, "parse_accepted": 1000, "parse_rejected": 1000, "time_rejected": 1000, "mediatype_valid": 1000,
 		"mediatype_invalid": 1000, "utf8_coerced": 500, "utf8_unchanged": 100}
 	var low []string
